@@ -19,6 +19,23 @@ pub struct Case {
 const LIT_CHARS: &[char] = &[' ', '-', '/', ':', '.', ',', '_', 'T', '0', '1', '2', '3', '4', '5', '6', '7', '8', '9', 'é', '日', '(', ')', '+'];
 const QUOTED_CHARS: &[char] = &['a', 'y', 'M', 'd', 'H', 'h', 'm', 's', 'x', 'X', 'e', 'n', ' ', ':', '\'', 'é', '日', 'o', 'f', 'Z', '1', '-'];
 
+/// any non-ASCII, non-control scalar value (2-, 3- and 4-byte UTF-8), so that nothing in the
+/// harness depends on a fixed literal alphabet (e.g. on the low byte of the code point)
+pub fn random_non_ascii(u: &mut Unstructured) -> arbitrary::Result<char> {
+    loop {
+        let cp = match u.below(4)? {
+            0 => u.int_in_range(0xA1..=0x7FFu32)?,
+            1 | 2 => u.int_in_range(0x800..=0xFFFDu32)?,
+            _ => u.int_in_range(0x1_0000..=0x1_FAFFu32)?,
+        };
+        if let Some(c) = char::from_u32(cp) {
+            if !c.is_control() && !c.is_whitespace() {
+                return Ok(c);
+            }
+        }
+    }
+}
+
 pub fn syms_of(kind: Kind) -> Vec<char> {
     match kind {
         Kind::Date => fmt::DATE_SYMS.to_vec(),
@@ -43,7 +60,7 @@ pub fn gen_tokens(u: &mut Unstructured, kind: Kind, max: usize) -> arbitrary::Re
                 let len = 1 + u.below(3)? as usize;
                 let mut s = String::new();
                 for _ in 0..len {
-                    s.push(*u.choose(LIT_CHARS)?);
+                    s.push(if u.coin(1, 4)? { random_non_ascii(u)? } else { *u.choose(LIT_CHARS)? });
                 }
                 Tok::Lit(s)
             }
@@ -51,7 +68,7 @@ pub fn gen_tokens(u: &mut Unstructured, kind: Kind, max: usize) -> arbitrary::Re
                 let len = 1 + u.below(6)? as usize;
                 let mut s = String::new();
                 for _ in 0..len {
-                    s.push(*u.choose(QUOTED_CHARS)?);
+                    s.push(if u.coin(1, 6)? { random_non_ascii(u)? } else { *u.choose(QUOTED_CHARS)? });
                 }
                 Tok::Quoted(s)
             }
